@@ -202,6 +202,21 @@ func (l *vhLedger) vhIncoming(kind, dup, lp, rp int) *Vertex {
 	return in
 }
 
+// vhStepCtx: the caller's context is live, already cancelled, or cancelled after the first poll.
+var vhCtxLive bool // whether the last vhStepCtx() is a context that is never cancelled
+
+func vhStepCtx() context.Context {
+	vhCtxLive = false
+	switch verifrt.Choose("context", 3) {
+	case 0:
+		vhCtxLive = true
+		return context.Background()
+	case 1:
+		return vhNewCtx(0)
+	}
+	return vhNewCtx(1)
+}
+
 func vhStepN() int {
 	if vhThorough() {
 		return 3
@@ -224,7 +239,7 @@ func vhStepAddLeaf(prop string) {
 	rp := lp + verifrt.Choose("inRight", k-lp)
 	in := l.vhIncoming(kind, dup, lp, rp)
 	before := len(l.ab.dag.GetVertices())
-	err := l.ab.AddLeaf(context.Background(), in)
+	err := l.ab.AddLeaf(vhStepCtx(), in)
 	l.vhCheck(prop, "addleaf")
 	if err == nil {
 		verifrt.Assert(kind == 0, prop+"/addleaf/only-fresh-valid-vertices-admitted")
@@ -263,7 +278,7 @@ func vhStepCreateLeaf(prop string) {
 		trx.Spice.Currency, trx.Spice.SupplementaryCurrency = 0, 0
 	}
 	tipsBefore := l.tips()
-	tip, err := l.ab.CreateLeaf(context.Background(), &trx)
+	tip, err := l.ab.CreateLeaf(vhStepCtx(), &trx)
 	l.vhCheck(prop, "createleaf")
 	if err == nil {
 		verifrt.Assert(kind == 0, prop+"/createleaf/only-fresh-valid-transactions-sealed")
